@@ -132,7 +132,7 @@ def make_call(rng, entry, pattern, str_dtype=False, big=False):
         spec = L if side == 'l' else R
         vals = spec['data'][side + 'attr']
         if vals and not any(model.is_missing(v) for v in vals):
-            spec['data'][side + 'attr'] = ['%s k%d' % (v, i) for i, v in enumerate(vals)]
+            spec['data'][side + 'attr'] = ['%s k%d' % (v.replace('\x00', ''), i) for i, v in enumerate(vals)]
             if side == 'l':
                 lkey = 'lattr'
             else:
@@ -168,6 +168,8 @@ def make_call(rng, entry, pattern, str_dtype=False, big=False):
                  'measure_spelling': gen.spell(rng, m),
                  'threshold': rng.choice([1, 2, 1.0, 1.5]) if m == 'OVERLAP' else
                  (gen.random_threshold(rng) if not big else rng.choice([0.5, 0.8, 1.0]))}
+        if rng.random() < 0.25:
+            f['allow_missing_via_attr'] = True      # flt.allow_missing = ... after construction
         call['filter'] = f
         if entry.startswith('ft:'):
             call['api'] = 'filter_tables'
@@ -187,6 +189,16 @@ def make_call(rng, entry, pattern, str_dtype=False, big=False):
             call['threshold'] = rng.choice([0, 0.3, 0.5, 1])
             call['comp_op'] = rng.choice(['>=', '>', '<=', '<', '=', '!='])
             call.pop('filter')
+            if rng.random() < 0.25 and lkey == 'lid' and rkey == 'rid':
+                # match attributes that are numbers (prices, years): present values stay present,
+                # the rows the pattern marked missing become NaN; compared by a user function, no tokenizer
+                for spec, a in ((L, 'lattr'), (R, 'rattr')):
+                    spec['data'][a] = [gen.NAN if model.is_missing(v) else float(len(v) % 5) + 0.5
+                                       for v in spec['data'][a]]
+                    spec['dtypes'][a] = rng.choice(['float64', 'float32'])
+                call['tok'] = None
+                call['sim'] = 'user_numdiff'
+                call['threshold'] = rng.choice([0, 1, 2.5])
     return call
 
 
